@@ -96,6 +96,19 @@ def gen_wav(run):
             yield (width, 0, n, channels, keep, route, 22050, run.tier)
 
 
+def open_fds_of(path):
+  """Number of this process's descriptors that refer to path (Linux /proc)."""
+  n = 0
+  real = os.path.realpath(path)
+  for fd in os.listdir("/proc/self/fd"):
+    try:
+      if os.readlink("/proc/self/fd/" + fd) == real:
+        n += 1
+    except OSError:
+      pass
+  return n
+
+
 _close_calls = {}
 _orig_close = wave.Wave_read.close
 
@@ -159,6 +172,9 @@ def run_wav(case):
       if len(got) == 1 and _close_calls.get(id(fobj), 0) != before:
         return bad("wav:closed-early", "the file was closed before the stream was exhausted", 0, "closed")
     after = _close_calls.get(id(fobj), 0)
+    # a file given by name: the operating-system file itself must be closed while the exhausted
+    # stream object is still alive (not merely the wave reader object)
+    still_open = route == "path" and open_fds_of(target)
   except Exception as exc:
     return bad("wav:exception:" + type(exc).__name__, "WavStream raised", None, str(exc)[:200])
   finally:
@@ -179,6 +195,9 @@ def run_wav(case):
                  {"index": i, "raw": samples[i], "value": e}, g, neg)
     if not keep and not (-1 <= g < 1):
       return bad("wav:range", "normalised sample outside [-1, 1)", "[-1,1)", g, neg)
+  if still_open:
+    return bad("wav:fd-open", "a file given by name must be closed (at the operating-system level) once the "
+               "stream is exhausted", "no open descriptor", "%d open descriptor(s)" % still_open, neg)
   if after - before < 1:
     return bad("wav:not-closed", "the wave file must be closed once the stream is exhausted", "closed", "open", neg)
   return R(None, neg, (width, channels, keep))
